@@ -412,7 +412,9 @@ func c18SetOps() []setOp {
 		n    string
 		v    any
 		want string
-	}{{`","`, ",", ","}, {`'+'`, '+', "+"}, {`"é;"`, "é;", "é;"}, {`'é'`, 'é', "é"}, {`'∧'`, '∧', "∧"}, {"nil", nil, ""}, {"rune(0)", rune(0), ""}, {`""`, "", ""}, {"7", 7, ""}} {
+	}{{`","`, ",", ","}, {`'+'`, '+', "+"}, {`"é;"`, "é;", "é;"}, {`'é'`, 'é', "é"}, {`'∧'`, '∧', "∧"}, {"nil", nil, ""}, {"rune(0)", rune(0), ""}, {`""`, "", ""}, {"7", 7, ""},
+		// white space that is neither a blank nor a tab is text like any other (one value per line)
+		{`"\n"`, "\n", "\n"}} {
 		d := d
 		add("SetDelimiter("+d.n+")", func(in *setInst) {
 			in.s.SetDelimiter(d.v)
@@ -427,7 +429,8 @@ func c18SetOps() []setOp {
 		want string
 	}{{`"&"`, []any{"&"}, "&"}, {`'|'`, []any{'|'}, "|"}, {`"&",'&'`, []any{"&", '&'}, "&&"}, {"", nil, ""}, {`""`, []any{""}, ""}, {`"vel"`, []any{"vel"}, "vel"},
 		// runes on both sides of 0x7F / 0xFF / the BMP, alone and mixed with strings; a multi-byte delimiter rune too
-		{`'¬'`, []any{'¬'}, "¬"}, {`'∧'`, []any{'∧'}, "∧"}, {`"a",'∧','\x7f'`, []any{"a", '∧', '\x7f'}, "a∧\x7f"}, {`'😀'`, []any{'😀'}, "😀"}, {`'\u0080'`, []any{'\u0080'}, "\u0080"}} {
+		{`'¬'`, []any{'¬'}, "¬"}, {`'∧'`, []any{'∧'}, "∧"}, {`"a",'∧','\x7f'`, []any{"a", '∧', '\x7f'}, "a∧\x7f"}, {`'😀'`, []any{'😀'}, "😀"}, {`'\u0080'`, []any{'\u0080'}, "\u0080"},
+		{`"or\u00a0\nelse"`, []any{"or\u00a0\nelse"}, "or\u00a0\nelse"}} {
 		y := y
 		add("SetSymbol("+y.n+")", func(in *setInst) {
 			in.s.SetSymbol(y.v...)
@@ -520,6 +523,10 @@ func c18SetMachine(c *Ctx, kind string, maxDepth int) *Machine[*setInst] {
 	name := "C18 settings " + kind
 	withMutex := strings.HasSuffix(kind, " mutex")
 	kind = strings.TrimSuffix(kind, " mutex")
+	// "<KIND> validity-rejecting": the stack's own validity closure says no, and an error is on record, from
+	// the start: settings are settings all the same (such a stack renders as the empty string)
+	rejecting := strings.HasSuffix(kind, " validity-rejecting")
+	kind = strings.TrimSuffix(kind, " validity-rejecting")
 	// "<KIND> encap-prefilled-<n>": the machine starts from an instance that was given n encapsulation
 	// pairs before, one call each (the long regime: every setter around a list that has grown n times)
 	prefill := 0
@@ -536,6 +543,9 @@ func c18SetMachine(c *Ctx, kind string, maxDepth int) *Machine[*setInst] {
 			in := &setInst{s: newStackKind(kind).Push("a", "b"), kind: kind, own: own, by: by, byWant: by.String()}
 			if withMutex {
 				in.s = newStackKind(kind).SetMutex().Push("a", "b")
+			}
+			if rejecting {
+				in.s.SetValidityPolicy(func(...any) error { return errCat }).SetErr(errCat)
 			}
 			for i := 0; i < prefill; i++ {
 				ch := string(rune('0' + i%10))
@@ -618,6 +628,9 @@ func c18SetMachine(c *Ctx, kind string, maxDepth int) *Machine[*setInst] {
 				}
 				want := gnode{T: "stack", Kind: kind, Paren: in.paren, Fold: in.fold, NoPad: in.nopad, Lonce: in.lonce, Sym: in.sym, Delim: in.delim, EncList: enc,
 					Kids: []gnode{{T: "leaf", V: "a"}, {T: "leaf", V: "b"}}}.ref()
+				if rejecting {
+					want = ""
+				}
 				if got := s.String(); got != want {
 					bad("String:"+cls, "String()=%q want %q (delimiter %q symbol %q encapsulation %q)", got, want, in.delim, in.sym, in.enc)
 				}
@@ -963,7 +976,7 @@ func init() {
 				om = append(om, m)
 			}
 		}
-		sm = append(sm, c18SetMachine(c, "NOT mutex", 0))
+		sm = append(sm, c18SetMachine(c, "NOT mutex", 0), c18SetMachine(c, "AND validity-rejecting", 0), c18SetMachine(c, "LIST validity-rejecting", 0))
 		pre := []int{4, 5, 8}
 		if tier == "thorough" {
 			pre = []int{3, 4, 5, 7, 8, 9, 15, 16, 17, 33}
